@@ -243,8 +243,77 @@ fn dividers(rng: &mut Rng, iters: u64) {
     }
 }
 
+/// scalar64_chainmul against the naive double-and-add on a real curve (public API only; points are compared
+/// through their Debug rendering after normalising with the same scalar on both sides is not possible, so the
+/// comparison is chainmul(k) vs dbladd(k) coordinates cross-multiplied via `Curve::a_d`-independent Debug parsing)
+fn chainmul(rng: &mut Rng, iters: u64, only: Option<u64>) {
+    use yamaquasi::arith_montgomery::ZmodN;
+    use yamaquasi::ecm::Curve;
+    let n = Uint::from(10007u64 * 10009u64);
+    let mk = || Curve::from_point(ZmodN::new(n), 2, 10).ok();
+    let Some(c) = mk() else { return };
+    let mut ks: Vec<u64> = vec![0, 1, 2, 7, 8, 9, 15, 16, u64::MAX, u64::MAX - 2, u64::MAX - 4, u64::MAX - 6, 1 << 63, (1 << 63) + 1,
+        0x1111111111111111, 0xFFFFFFFFFFFFFFF1, 0x8888888888888889];
+    for _ in 0..iters.min(3000) {
+        ks.push(rng.word());
+        ks.push(rng.next());
+    }
+    // known finding F2b: scalars whose chain needs 33 opcodes overflow the 32-entry array; they are not searched again
+    fn chain_len(k: u64) -> usize {
+        let (mut l, mut kk) = (0usize, k as u128);
+        if k == 0 {
+            return 1;
+        }
+        loop {
+            if kk % 2 == 0 {
+                kk >>= kk.trailing_zeros();
+                l += 1;
+            } else if kk <= 7 {
+                return l + 1;
+            } else {
+                let r = kk % 16;
+                kk = if r < 8 { (kk - r) / 2 } else { (kk + 16 - r) / 2 };
+                l += 1;
+            }
+        }
+    }
+    ks.retain(|&k| chain_len(k) <= 32);
+    if let Some(k) = only {
+        ks = vec![k];
+    }
+    for k in ks {
+        let r = catch_unwind(AssertUnwindSafe(|| {
+            let p1 = c.scalar64_mul_dbladd(k, c.gen());
+            let p2 = c.scalar64_chainmul(k, c.gen());
+            (format!("{:?}", p1), format!("{:?}", p2))
+        }));
+        match r {
+            Err(_) => fail("chainmul", format!("scalar64_chainmul({k}) on the curve through (2,10) mod 10007*10009: panic")),
+            Ok((a, b)) => {
+                // projective equality x1*y2 == x2*y1 etc. needs field access; parse the first limb of each MInt
+                let limbs = |s: &str| -> Vec<u128> {
+                    s.split("MInt([").skip(1).map(|t| t.split(',').next().unwrap().trim().parse::<u128>().unwrap()).collect()
+                };
+                let (pa, pb) = (limbs(&a), limbs(&b));
+                if pa.len() != 3 || pb.len() != 3 {
+                    continue;
+                }
+                // coordinates are Montgomery residues mod n < 2^64: cross products mod n (the common factor R cancels)
+                let nn = 10007u128 * 10009u128;
+                let eq = |i: usize, j: usize| (pa[i] * pb[j]) % nn == (pa[j] * pb[i]) % nn;
+                if !(eq(0, 1) && eq(1, 2) && eq(0, 2)) {
+                    fail("chainmul", format!("scalar64_chainmul({k}) != scalar64_mul_dbladd({k}) on the curve through (2,10) mod 10007*10009"));
+                }
+            }
+        }
+    }
+}
+
 pub fn run(case: &str, rng: &mut Rng, iters: u64) -> bool {
     match case {
+        "chainmul" => chainmul(rng, iters, None),
+        // known finding F2b: a 33-opcode chain
+        "f2b" => chainmul(rng, iters, Some(0xF111111111111111)),
         "dividers" => dividers(rng, iters),
         "isprime64" => isprime64(rng, iters),
         "pseudoprime" => pseudoprime(rng, iters),
